@@ -147,7 +147,7 @@ def main():
             for m in docs.build_sessions(sessions_of, [a.seed * 1000003 + k * 100000007 + i for i in range(n)], population=pop):
                 sess += m['multi']
             run.note('scores_' + pop, n)
-    docs.validate_sessions(run, sess)
+    docs.validate_sessions(run, sess, relevant=docs.relevant_for(run.pid))
     for s in sess:
         if s['range'][0] > 1 or 'split' in s['text']:
             run.nontrivial.add((s['text'], tuple(s['range'])))
